@@ -1,7 +1,7 @@
 #!/bin/bash
 # try_seed.sh <dir with patch.diff> <PROP> [tier]  - applies the patch to a scratch worktree of /repo HEAD and runs the check there
 set -u
-D="$1"; P="$2"; T="${3:-quick}"
+D="$(realpath "$1")"; P="$2"; T="${3:-quick}"
 N="$(echo "$D" | tr '/' '_')"
 WT="/tmp/mt/$N"
 rm -rf "$WT"; git -C /repo worktree prune; mkdir -p /tmp/mt
